@@ -125,6 +125,8 @@ type crashPlan struct {
 	storePlan
 	MaxPoints int     `json:"max_points"` // 0 = every crash point
 	Points    []int64 `json:"points"`     // explicit crash points (replay); overrides enumeration
+	// DenseLastOp: besides the sampled points, every FS operation of the history's last call is a crash point
+	DenseLastOp bool `json:"dense_last_op,omitempty"`
 	Seed      int64   `json:"seed"`
 }
 
@@ -143,6 +145,9 @@ func (d *storeDrv) openOn(fs vfs.FS) error {
 // opsBeforeClose: FS operations issued up to the return of the last call of the history (counting run)
 var opsBeforeClose int64
 
+// lastStepStart: FS operations issued before the LAST call of the history began (counting run)
+var lastStepStart int64
+
 func (d *storeDrv) runCrash(hi int, h []histStep, k int64, kinds *[]string) (int64, bool, error) {
 	d.vers = nil
 	d.verBase, d.pad = d.plan.baseOf(hi), d.plan.Pad
@@ -160,6 +165,9 @@ func (d *storeDrv) runCrash(hi int, h []histStep, k int64, kinds *[]string) (int
 	for si, st := range h {
 		if cfs.fired.Load() {
 			break // the process is dead: no further call is issued
+		}
+		if k == 0 && si == len(h)-1 {
+			lastStepStart = cfs.n.Load()
 		}
 		before, wasFired := d.tw.n, cfs.fired.Load()
 		if st.Op.Op == "reopen" {
@@ -269,6 +277,13 @@ func storeCrash(args []string) error {
 			// always: the machine dies right after the last call has returned (nothing but what the calls
 			// themselves made durable survives), and at the very last operation of the shutdown
 			pick = append(pick, opsBeforeClose+1, opsBeforeClose+2, n)
+			if plan.DenseLastOp {
+				// every crash point inside the last call of the history (a long maintenance operation whose
+				// interesting windows are a few operations wide)
+				for k := lastStepStart + 1; k <= opsBeforeClose; k++ {
+					pick = append(pick, k)
+				}
+			}
 			ks = pick
 		}
 		for _, k := range ks {
